@@ -123,6 +123,53 @@ def judgeDfs (g : MGraph) (cmds : List Cmd) (toks : List String) : Option String
               k := k - 1
   return none
 
+/-- DfsPostOrder with move_to/reset (`C08_postorder_moveTo`): while every earlier segment since the last
+reset was run to exhaustion, discovered = finished = emitted, so a segment started at `s` must emit
+exactly the nodes reachable from `s` through nodes not emitted before (nothing if `s` was emitted), each
+once.  After an interrupted segment (a `move_to` before exhaustion leaves discovered-but-unfinished
+nodes behind) only "no node is emitted twice since the last reset" is judged. -/
+def judgePostScript (g : MGraph) (cmds : List Cmd) (toks : List String) : Option String := Id.run do
+  let mut fin : List Nat := []         -- emitted since creation / reset
+  let mut seg : List Nat := []
+  let mut allowed : Option (List Nat) := some []
+  let mut rest := toks
+  let mut exhausted := true
+  let mut dirty := false
+  for c in cmds do
+    match c with
+    | .reset => fin := []; seg := []; allowed := some []; exhausted := true; dirty := false
+    | .new s =>
+      if !exhausted then dirty := true
+      seg := []
+      exhausted := false
+      allowed := if dirty then none else if fin.contains s then some [] else reachFrom (removeNodes g fin) s
+    | .take _ | .all =>
+      let isAll := match c with | .all => true | _ => false
+      let mut k := match c with | .take k => k | _ => 1000000000
+      while k > 0 do
+        match rest with
+        | [] => if isAll then return some "answer ends before the walker is exhausted" else k := 0
+        | t :: r =>
+          rest := r
+          if t == "x" then
+            match allowed with
+            | some al => if !(sameSet seg al) && !exhausted then
+                return some s!"post-order walker stopped after {showNats seg}, reachable-and-new set is {showNats al}"
+            | none => pure ()
+            exhausted := true
+            k := 0
+          else match t.toNat? with
+            | none => return some s!"unexpected token {t}"
+            | some n =>
+              if fin.contains n then return some s!"node {n} emitted twice"
+              match allowed with
+              | some al => if !al.contains n then return some s!"node {n} is not reachable from the start through unfinished nodes"
+              | none => pure ()
+              fin := n :: fin
+              seg := seg ++ [n]
+              k := k - 1
+  return none
+
 /-- hop distance from `s` by layered expansion (`none` = unreachable) -/
 def hopDist (g : MGraph) (s : Nat) : Nat → List Nat → List Nat → Nat → Nat → Option Nat
   | 0, _, _, _, _ => none
@@ -305,10 +352,10 @@ def step (d : DState) (req : List String) (impl : String) : DState × String :=
     match kind with
     | "dfs" => (d, verdict (judgeDfs d.v.g cmds toks) (joinToks (runDfs d.v cmds)) impl)
     | "post" =>
-      -- spec-level only for the plain `n<s>,a` script; other scripts are compared exactly
+      -- plain `n<s>,a` script: set + order; other scripts: `judgePostScript` (sets per segment); all compared exactly with the mirror too
       let spec := match cmds with
         | [.new s, .all] => judgePost d.v.g s (toksNodes impl)
-        | _ => none
+        | _ => judgePostScript d.v.g cmds toks
       (d, verdict spec (joinToks (runPost d.v cmds)) impl)
     | _ => (d, "SPECFAIL bad request")
   | ["bfs", s] =>
